@@ -101,12 +101,15 @@ template <class PT>
 target* make_pool(std::size_t ns, std::size_t bs, const std::string& src, bool hi)
 {
     if (src == "grow") { using A = memory_pool<PT, up_alloc>; return mk<A>([=](void* s) { return new (s) A(ns, bs); }, false, hi); }
+    // "const": blocks of one size, as many as are asked for (the shape of static_block_allocator / virtual_block_allocator)
+    if (src == "const") { using A = memory_pool<PT, growing_block_allocator<up_alloc, 1, 1>>; return mk<A>([=](void* s) { return new (s) A(ns, bs); }, false, hi); }
     using A = memory_pool<PT, fixed_block_allocator<up_alloc>>; return mk<A>([=](void* s) { return new (s) A(ns, bs); }, false, hi);
 }
 template <class PT, class BD>
 target* make_coll(std::size_t mx, std::size_t bs, const std::string& src, bool hi)
 {
     if (src == "grow") { using A = memory_pool_collection<PT, BD, up_alloc>; return mk<A>([=](void* s) { return new (s) A(mx, bs); }, true, hi); }
+    if (src == "const") { using A = memory_pool_collection<PT, BD, growing_block_allocator<up_alloc, 1, 1>>; return mk<A>([=](void* s) { return new (s) A(mx, bs); }, true, hi); }
     using A = memory_pool_collection<PT, BD, fixed_block_allocator<up_alloc>>; return mk<A>([=](void* s) { return new (s) A(mx, bs); }, true, hi);
 }
 
